@@ -61,6 +61,10 @@ def main(ctx, replay=None):
     sc = ctx.subdir("tlc_cs")
     res = must_ok(run_tlc("ConfigSpace", "ConfigSpace.cfg", sc, workers=1, timeout=900))
     allc = [c[1] for c in printed_values(res.out, "CFG")]
+    aux = printed_values(res.out, "AUX")
+    if not aux:
+        raise MachineryError("ConfigSpace did not export the secondary settings")
+    NTS, QORDERS, VRATIOS = (sorted(x) for x in aux[0][1:4])
     ctx.cov["configurations_enumerated"] = len(allc)
     if len(allc) < 20000:
         raise MachineryError(f"ConfigSpace enumerated only {len(allc)} configurations")
@@ -99,11 +103,13 @@ def main(ctx, replay=None):
     try:
         for n, c in enumerate(uniq):
             tmin, dt = float(c["tmin"]), float(c["dt"])
-            settings = {"T_MIN": tmin, "DT": dt, "NT": 6, "NTV": 9}
+            nt, qorder, vratio = int(rng.choice(NTS)), int(rng.choice(QORDERS)), float(rng.choice(VRATIOS))
+            settings = {"T_MIN": tmin, "DT": dt, "NT": nt, "NTV": 9, "order": qorder, "volume_ratio": vratio}
             kw = dict(nv=int(c["nv"]), lattice=bool(c["lattice"]), interpolator=c["interp"], order=int(c["order"]), settings=settings)
             ds = free_dataset(rng, extra_shear=int(rng.integers(2, 10)), **kw) if c["system"] == "none" else system_dataset(rng, exports, c["system"], **kw)
             d = wd.sub(f"c{n}")
             case = {k: c[k] for k in ("interp", "order", "nv", "system", "tmin", "dt", "lattice")}
+            case.update(nt=nt, qha_order=qorder, volume_ratio=vratio)
             ctx.count(case)
             sig = {"interp": c["interp"]}
             try:
